@@ -251,6 +251,17 @@ pub fn check_moov(o: &mut Outcome, d: &[u8], tree: &[Node], m: &Movie, ctx: &str
                 // configOBUs: complete OBUs that tile the rest of the record exactly, the first one a sequence header
                 if let Err(why) = tile_obus(config_obus) {
                     o.fail("av1C", format!("av1C.config_obus_layout.{}", ctx), format!("av1C configOBUs {}: {}", hex(config_obus, 24), why));
+                } else if let Some((profile, level0, tier0)) = seq_header_front(config_obus) {
+                    // AV1-ISOBMFF 2.3.3: seq_profile, seq_level_idx_0 and seq_tier_0 of the record shall match the Sequence
+                    // Header OBU carried in configOBUs
+                    let rec = (raw4[1] >> 5, raw4[1] & 0x1f, raw4[2] >> 7);
+                    if rec != (profile, level0, tier0) {
+                        o.fail(
+                            "av1C",
+                            format!("av1C.fields_vs_config_obus.{}", ctx),
+                            format!("av1C says profile {} level {} tier {}, the sequence header in its configOBUs says profile {} level {} tier {}", rec.0, rec.1, rec.2, profile, level0, tier0),
+                        );
+                    }
                 }
             }
             ConfigRecord::Vp9Raw { payload } => {
@@ -303,6 +314,85 @@ pub fn check_moov(o: &mut Outcome, d: &[u8], tree: &[Node], m: &Movie, ctx: &str
             o.fail("trex", format!("trex.layout.{}", ctx), format!("trex {:?}", t));
         }
     }
+}
+
+/// seq_profile, seq_level_idx[0] and seq_tier[0] of the sequence header OBU at the start of `d` (AV1 spec 5.5.1; only the part
+/// of the syntax in front of them is read).  None when the OBU is not a sequence header or ends early.
+fn seq_header_front(d: &[u8]) -> Option<(u8, u8, u8)> {
+    let h = *d.first()?;
+    if (h >> 3) & 0xf != 1 {
+        return None;
+    }
+    let mut p = 1usize;
+    if h & 4 != 0 {
+        p += 1;
+    }
+    let payload: &[u8] = if h & 2 != 0 {
+        let mut size = 0u64;
+        let mut shift = 0;
+        loop {
+            let b = *d.get(p)?;
+            p += 1;
+            size |= ((b & 0x7f) as u64) << shift;
+            shift += 7;
+            if b & 0x80 == 0 || shift >= 56 {
+                break;
+            }
+        }
+        d.get(p..p.checked_add(size as usize)?)?
+    } else {
+        d.get(p..)?
+    };
+    let mut bit = 0usize;
+    let mut rd = |n: usize| -> Option<u64> {
+        let mut v = 0u64;
+        for _ in 0..n {
+            let byte = *payload.get(bit / 8)?;
+            v = (v << 1) | ((byte >> (7 - bit % 8)) & 1) as u64;
+            bit += 1;
+        }
+        Some(v)
+    };
+    let profile = rd(3)? as u8;
+    let _still = rd(1)?;
+    let reduced = rd(1)? == 1;
+    if reduced {
+        let level = rd(5)? as u8;
+        return Some((profile, level, 0));
+    }
+    let timing = rd(1)? == 1;
+    let mut decoder_model = false;
+    if timing {
+        rd(32)?;
+        rd(32)?;
+        if rd(1)? == 1 {
+            // uvlc
+            let mut zeros = 0;
+            while rd(1)? == 0 {
+                zeros += 1;
+                if zeros > 32 {
+                    return None;
+                }
+            }
+            if zeros < 32 {
+                rd(zeros)?;
+            }
+        }
+        decoder_model = rd(1)? == 1;
+        if decoder_model {
+            rd(5)?;
+            rd(32)?;
+            rd(5)?;
+            rd(5)?;
+        }
+    }
+    let _ = decoder_model;
+    let _initial_display_delay_present = rd(1)?;
+    let _cnt_minus_1 = rd(5)?;
+    let _idc = rd(12)?;
+    let level = rd(5)? as u8;
+    let tier = if level > 7 { rd(1)? as u8 } else { 0 };
+    Some((profile, level, tier))
 }
 
 /// Strict walk over an OBU sequence (AV1 spec 5.3): forbidden bit 0, header (+ extension byte), leb128 size that fits;
